@@ -215,6 +215,10 @@ public:
 				break;
 			case quote_expected:
 				switch(c) {
+				case '\r':
+					// a quoted string never spans a bare CRLF: an unbalanced quote ends with the line
+					state_=lf_exptected;
+					break;
 				case '"':
 					state_=input_observed;
 					break;
@@ -230,6 +234,11 @@ public:
 				break;
 			case closing_bracket_expected:
 				switch(c) {
+				case '\r':
+					// a comment never spans a bare CRLF: an unbalanced '(' ends with the line
+					bracket_counter_=0;
+					state_=lf_exptected;
+					break;
 				case ')':
 					bracket_counter_--;
 					if(bracket_counter_==0)
